@@ -496,3 +496,8 @@ def replay_args(v):
         extra = ["surfaced"] if v["key"].endswith("not_surfaced") else []
         return ("c19_uni_header", [m["script"].replace(" ", ","), bytes(m["bytes"]).hex()] + extra)
     return None
+
+
+# native scenarios that exercise, against the real build, the behaviours this spec decides: on a tree where the spec finds no
+# violation every one of them must NOT reproduce (a scenario that reproduces there means the spec misses something)
+SCENARIOS = [('c19_uni_header', ['D3,D1', '4054c000']), ('c19_uni_header', ['D3,P', '405400', 'surfaced']), ('c19_uni_header', ['D1,D1,D1', '014004']), ('c19_uni_header', ['D2,R', '01c0']), ('c19_payload_with_header', [])]
